@@ -330,6 +330,8 @@ pub enum Op {
     EntryOrInsert(Path, String, NewVal),
     IndexAssign(Path, String, NewVal),
     Remove(Path, String),
+    /// `Extend<(K, V)>`: one existing key (overwritten in place) and one new key (appended), in that order and reversed
+    Extend(Path, String, bool),
     SortValues(Path),
     Fmt(Path),
     ArrPush(Path, i64),
@@ -446,6 +448,10 @@ fn enumerate_ops(root: &N) -> Vec<Op> {
                     }
                 }
                 for (k, child) in e {
+                    if child.is_value() && !e.iter().any(|(kk, _)| kk == "ext") {
+                        ops.push(Op::Extend(p.clone(), k.clone(), false));
+                        ops.push(Op::Extend(p.clone(), k.clone(), true));
+                    }
                     ops.push(Op::Insert(p.clone(), k.clone(), NewVal::Int(7)));
                     ops.push(Op::IndexAssign(p.clone(), k.clone(), NewVal::Str));
                     ops.push(Op::Remove(p.clone(), k.clone()));
@@ -603,6 +609,21 @@ fn apply_model(root: &mut N, op: &Op) -> BTreeSet<String> {
             let (K::Inl(e) | K::Tab(e, _)) = &mut t.k else { panic!() };
             if !e.iter().any(|(kk, _)| kk == k) {
                 e.push((k.clone(), v.node(inv)));
+            }
+        }
+        Op::Extend(p, k, new_first) => {
+            let inv = inside_value(root, p);
+            let t = get_mut(root, p);
+            let (K::Inl(e) | K::Tab(e, _)) = &mut t.k else { panic!() };
+            if let Some((_, old)) = e.iter().find(|(kk, _)| kk == k) {
+                sub(old, &mut touched);
+            }
+            if *new_first {
+                put(e, "ext", NewVal::Int(8).node(inv));
+                put(e, k, NewVal::Int(7).node(inv));
+            } else {
+                put(e, k, NewVal::Int(7).node(inv));
+                put(e, "ext", NewVal::Int(8).node(inv));
             }
         }
         Op::Remove(p, k) => {
@@ -809,7 +830,7 @@ fn apply_model(root: &mut N, op: &Op) -> BTreeSet<String> {
     }
     // an edit inside an inline table or array rewrites the line(s) of the enclosing value: those markers may change
     let p: &Path = match op {
-        Op::Insert(p, ..) | Op::EntryOrInsert(p, ..) | Op::IndexAssign(p, ..) | Op::Remove(p, ..) | Op::SortValues(p) | Op::Fmt(p) | Op::ArrPush(p, ..) | Op::ArrInsert(p, ..) | Op::ArrReplace(p, ..) | Op::ArrRemove(p, ..) | Op::ArrRetainEven(p) | Op::ArrRetainNone(p) | Op::ArrClear(p) | Op::ArrTrailingComma(p, ..) | Op::ArrPushMoved(p, ..) | Op::ArrInsertMoved(p, ..) | Op::AotPush(p) | Op::AotExtend3(p) | Op::AotRemove(p, ..) | Op::AotRetainEven(p) | Op::AotClear(p) | Op::TabRetainEven(p) | Op::TabClear(p) | Op::IntoInline(p) | Op::IntoTable(p) | Op::MakeValue(p) | Op::IntoAot(p) => p,
+        Op::Insert(p, ..) | Op::EntryOrInsert(p, ..) | Op::IndexAssign(p, ..) | Op::Remove(p, ..) | Op::Extend(p, ..) | Op::SortValues(p) | Op::Fmt(p) | Op::ArrPush(p, ..) | Op::ArrInsert(p, ..) | Op::ArrReplace(p, ..) | Op::ArrRemove(p, ..) | Op::ArrRetainEven(p) | Op::ArrRetainNone(p) | Op::ArrClear(p) | Op::ArrTrailingComma(p, ..) | Op::ArrPushMoved(p, ..) | Op::ArrInsertMoved(p, ..) | Op::AotPush(p) | Op::AotExtend3(p) | Op::AotRemove(p, ..) | Op::AotRetainEven(p) | Op::AotClear(p) | Op::TabRetainEven(p) | Op::TabClear(p) | Op::IntoInline(p) | Op::IntoTable(p) | Op::MakeValue(p) | Op::IntoAot(p) => p,
     };
     let mut cur: &N = before;
     let mut chain: Vec<&N> = vec![cur];
@@ -861,6 +882,18 @@ fn apply_real(doc: &mut DocumentMut, op: &Op) {
             // inline tables only hold values
             let item = if it.is_inline_table() { v.item().into_value().map(Item::Value).unwrap() } else { v.item() };
             it[k.as_str()] = item;
+        }
+        Op::Extend(p, k, new_first) => {
+            let it = nav(doc, p);
+            let mut pairs: Vec<(String, i64)> = vec![(k.clone(), 7), ("ext".to_string(), 8)];
+            if *new_first {
+                pairs.reverse();
+            }
+            if let Some(t) = it.as_table_mut() {
+                t.extend(pairs.into_iter().map(|(k, v)| (k, toml_edit::value(v))));
+            } else {
+                it.as_inline_table_mut().expect("inline table").extend(pairs.into_iter().map(|(k, v)| (k, Value::from(v))));
+            }
         }
         Op::Remove(p, k) => {
             nav(doc, p).as_table_like_mut().expect("table-like").remove(k);
